@@ -657,6 +657,77 @@ fn reach_locate(source: &[u8], o1: TextSize, o2: TextSize) -> (r: (SourceLocatio
     (a, b)
 }
 
+// ---------------------------------------------------------------------------------------------
+// Agreement with the indexed locator.  The three definitions below are copied verbatim from the unit
+// line_index (where LineIndex::from_source_text is proved to establish index_wf and
+// LineIndex::source_location to return a row r with is_row_of and, on ASCII text, column = offset - starts[r] + 1).
+
+/// `e` is the offset just after a line break of `b`.
+spec fn is_break_end(b: Seq<u8>, e: int) -> bool {
+    0 < e <= b.len() && (b[e - 1] == 10u8 || (b[e - 1] == 13u8 && !(e < b.len() && b[e] == 10u8)))
+}
+
+spec fn starts_sorted(s: Seq<TextSize>) -> bool {
+    forall|i: int, j: int| 0 <= i < j < s.len() ==> s[i].raw < s[j].raw
+}
+
+spec fn index_wf(s: Seq<TextSize>, b: Seq<u8>) -> bool {
+    &&& s.len() >= 1
+    &&& s[0].raw == 0
+    &&& starts_sorted(s)
+    &&& forall|k: int| 1 <= k < s.len() ==> is_break_end(b, #[trigger] s[k].raw as int)
+    &&& forall|e: int| is_break_end(b, e) ==> exists|k: int| 1 <= k < s.len() && #[trigger] s[k].raw == e
+}
+
+spec fn is_row_of(s: Seq<TextSize>, o: int, r: int) -> bool {
+    0 <= r < s.len() && s[r].raw <= o && (r + 1 < s.len() ==> o < s[r + 1].raw)
+}
+
+/// THEOREM (second sentence of C13, line part): whatever state the incremental locator answers an
+/// offset from, its line start is the start of the very row the line index reports for that offset -
+/// on the first line of a text with a BOM the index says 0 and the incremental locator 3 (the BOM is
+/// not counted by either: LineIndex::source_location skips it when it computes the column).
+proof fn theorem_locators_same_line(idx: Seq<TextSize>, b: Seq<u8>, st: LinearLocatorState, o: int, r: int)
+    requires index_wf(idx, b), st_wf_at(b, st, o), is_row_of(idx, o, r),
+    ensures
+        idx[r].raw as int == (if r == 0 && has_bom(b) { st.line_start.raw - 3 } else { st.line_start.raw as int }),
+{
+    let l = st.line_start.raw as int;
+    let e = idx[r].raw as int;
+    if r >= 1 {
+        // the row start is a line-break end at or before the offset: it cannot lie after l
+        assert(is_break_end(b, e));
+        if e > l {
+            assert(is_nl(b[e - 1]));
+            assert(false);
+        }
+    }
+    if is_break_end(b, l) {
+        let k = choose|k: int| 1 <= k < idx.len() && #[trigger] idx[k].raw == l;
+        if k > r {
+            assert(r + 1 < idx.len());
+            if k > r + 1 { assert(idx[r + 1].raw < idx[k].raw); }
+            assert(false);
+        }
+        if k < r { assert(idx[k].raw < idx[r].raw); }
+    } else {
+        // first line
+        assert(l == (if has_bom(b) { 3int } else { 0int }));
+        if r >= 1 {
+            assert(e <= l);
+            assert(is_nl(b[e - 1]));
+            assert(false);
+        }
+    }
+}
+
+/// Vacuity guard for the theorem: rows other than the first exist.
+proof fn canary_same_line(idx: Seq<TextSize>, b: Seq<u8>, st: LinearLocatorState, o: int, r: int)
+    requires index_wf(idx, b), st_wf_at(b, st, o), is_row_of(idx, o, r),
+    ensures idx[r].raw == 0,
+{
+}
+
 /// Vacuity guard: must be rejected (a text with a line break does have a recorded line end).
 proof fn canary_linear_locate(b: Seq<u8>, s: LinearLocatorState)
     requires st_wf(b, s), b.len() > 0,
